@@ -27,7 +27,9 @@ clause → theorem
 * every call in flight returns an error (never a late response) . `in_flight_calls_get_errors`, `failure_is_permanent`
 * a call registering after the drain fails at its write ......... `late_caller_fails`; counter-example for the other
                                                                   order: `late_caller_hangs_if_drain_first`
-* every later call returns an error without blocking ............ `later_calls_error`, `unregistered_call_fails`, `call_rank_decreases`
+* every later call returns an error without blocking ............ `later_calls_error`, `unregistered_call_outcome`, `unregistered_call_fails`,
+                                                                  `dead_connection_outcome(_by_client)`, `call_rank_decreases`
+* a WebSocket Close / Text message is a connection failure ...... `ws_close_or_text_is_failure`, `ws_ping_pong_inert`
 * subscriber sees end-of-stream ................................. `subscriber_eof` (`ws_takes_notify_sender`)
 * timeout / cancellation leave nothing behind ................... `timeout_no_residue`, `cancel_no_residue`,
                                                                   `returned_call_has_no_entry` (`removal_facts`)
@@ -138,11 +140,11 @@ theorem failure_is_permanent (cfg : Cfg) (s : State) (hf : Failed s) (evs : List
 /-- A call that has not registered yet, on a client where writes fail or registrations are refused:
 its next own steps (register, write, cleanup) end with an error, never in a blocking step, and leave
 the pending map as it was. -/
-theorem unregistered_call_fails (cfg : Cfg) (hrbw : cfg.regBeforeWrite = true) (hrm : cfg.writeErrRemoves = true)
+theorem unregistered_call_outcome (cfg : Cfg) (hrbw : cfg.regBeforeWrite = true) (hrm : cfg.writeErrRemoves = true)
     (s : State) (hI : Inv cfg s) (hg : guarded s = true) (c : Nat)
     (hpc : (s.calls c).pc = .active) (hreg : (s.calls c).reg = false) (hw : (s.calls c).wrote = false) :
-    (∃ o, (o = .connErr ∨ o = .writeErr) ∧
-      ((run cfg s [.register c, .write c, .cleanup c]).calls c).pc = .returned o) ∧
+    ((run cfg s [.register c, .write c, .cleanup c]).calls c).pc =
+      .returned (if s.regClosed then .connErr else .writeErr) ∧
     (run cfg s [.register c, .write c, .cleanup c]).pending = s.pending := by
   have hnot : (s.calls c).id ∉ ids s.pending := by
     intro hm
@@ -152,16 +154,26 @@ theorem unregistered_call_fails (cfg : Cfg) (hrbw : cfg.regBeforeWrite = true) (
     subst this; have h2 := ho.2.2; simp only at h2; rw [hreg] at h2; cases h2
   have herase : List.filter (fun e => e.1 != (s.calls c).id) s.pending = s.pending := erase_of_not_mem hnot
   by_cases hrc : s.regClosed = true
-  · refine ⟨⟨.connErr, Or.inl rfl, ?_⟩, ?_⟩ <;>
-      simp [run, step, canRegister, canWrite, hpc, hreg, hw, hrbw, hrc, setCall]
+  · constructor <;> simp [run, step, canRegister, canWrite, hpc, hreg, hw, hrbw, hrc, setCall]
   · have hshut : s.writerShut = true := by
       simp only [guarded, Bool.or_eq_true] at hg
       rcases hg with hg | hg
       · exact hg
       · exact absurd hg hrc
-    refine ⟨⟨.writeErr, Or.inr rfl, ?_⟩, ?_⟩ <;>
+    constructor <;>
       simp [run, step, canRegister, canWrite, hpc, hreg, hw, hrbw, hrc, hnot, hshut, removes, hrm, setCall,
         Abandon.outcome, erase, herase]
+
+/-- …in particular it is one of the two error classes. -/
+theorem unregistered_call_fails (cfg : Cfg) (hrbw : cfg.regBeforeWrite = true) (hrm : cfg.writeErrRemoves = true)
+    (s : State) (hI : Inv cfg s) (hg : guarded s = true) (c : Nat)
+    (hpc : (s.calls c).pc = .active) (hreg : (s.calls c).reg = false) (hw : (s.calls c).wrote = false) :
+    (∃ o, (o = .connErr ∨ o = .writeErr) ∧
+      ((run cfg s [.register c, .write c, .cleanup c]).calls c).pc = .returned o) ∧
+    (run cfg s [.register c, .write c, .cleanup c]).pending = s.pending := by
+  have h := unregistered_call_outcome cfg hrbw hrm s hI hg c hpc hreg hw
+  refine ⟨⟨_, ?_, h.1⟩, h.2⟩
+  cases s.regClosed <;> simp
 
 /-- **Late caller.**  Once the reader has done its last drain, a call that has not registered yet
 cannot get through: either its registration is refused (`closeAndDrain`) or its write fails
@@ -204,8 +216,63 @@ theorem later_calls_error (cfg : Cfg) (hgo : goodOrder false false cfg.failOrder
   have hp : (step cfg s (.alloc c)).pending = s.pending := by rw [h1]; rfl
   simpa [run, hp] using this
 
+/-- **What a call on a dead connection returns** (for the fleet model, C19): once the failure path has
+finished, a new call returns exactly one error class, fixed by the client's `fail_all_pending`:
+"refused at registration" (`connErr`) if that function marks the connection failed together with the
+drain (`closeAndDrain`), else "write failed" (`writeErr`); never a response, never a timeout, never a
+blocking step. -/
+theorem dead_connection_outcome (cfg : Cfg) (hgo : goodOrder false false cfg.failOrder = true) (hrbw : cfg.regBeforeWrite = true)
+    (hrm : cfg.writeErrRemoves = true)
+    (s : State) (hs : Reachable cfg s) (g : Nat) (hf : s.reader = .finished g) (c : Nat) (hc : (s.calls c).pc = .idle) :
+    ((run cfg s [.alloc c, .register c, .write c, .cleanup c]).calls c).pc =
+      .returned (if FailStep.closeAndDrain ∈ cfg.failOrder then .connErr else .writeErr) := by
+  have hs1 := hs.step (.alloc c)
+  have h1 : step cfg s (.alloc c) = setCall { s with nextId := s.nextId + 1 } c { pc := .active, id := s.nextId } := by
+    simp [step, hc]
+  have hg : guarded (step cfg s (.alloc c)) = true := by
+    rw [h1]; simpa [guarded] using (hs.dinv hgo hrbw).fin g hf
+  have hout := (unregistered_call_outcome cfg hrbw hrm (step cfg s (.alloc c)) hs1.inv.1 hg c
+    (by rw [h1]; simp) (by rw [h1]; simp) (by rw [h1]; simp)).1
+  have hrc : (step cfg s (.alloc c)).regClosed = s.regClosed := by rw [h1]; rfl
+  have hiff : s.regClosed = true ↔ FailStep.closeAndDrain ∈ cfg.failOrder :=
+    ⟨hs.cinv.only, hs.cinv.fin g hf⟩
+  simp only [run, List.foldl_cons, List.foldl_nil] at hout ⊢
+  rw [hout, hrc]
+  by_cases hm : FailStep.closeAndDrain ∈ cfg.failOrder
+  · simp [hm, hiff.2 hm]
+  · have : s.regClosed = false := by
+      cases hx : s.regClosed
+      · rfl
+      · exact absurd (hiff.1 hx) hm
+    simp [hm, this]
+
+/-- Per client kind, from the re-extracted `fail_all_pending`: the blocking client's dead-connection
+error is the failed write; the async and WebSocket clients refuse at registration. -/
+theorem dead_connection_outcome_by_client :
+    (FailStep.closeAndDrain ∈ Gen.Mux.blockingCfg.failOrder) = False ∧
+    FailStep.closeAndDrain ∈ Gen.Mux.asyncCfg.failOrder ∧ FailStep.closeAndDrain ∈ Gen.Mux.wsCfg.failOrder := by
+  refine ⟨by simp; decide, by decide, by decide⟩
+
 example : (run Gen.Mux.wsCfg State.init (.readErr :: List.replicate 12 .failStep)).reader = .finished 0 := by
   decide
+
+/-- **WebSocket control messages** (`decode_websocket_frame`, re-extracted): a Close or a Text message
+ends the connection exactly like a read error — the reader enters the failure path, to which every
+theorem above applies — whether or not the peer also closes the TCP socket; Ping and Pong change nothing. -/
+theorem ws_close_or_text_is_failure (s : State) (hr : s.reader = .idle) :
+    ctlStep Gen.Mux.wsCfg s Gen.Mux.wsClose = step Gen.Mux.wsCfg s .readErr ∧
+    ctlStep Gen.Mux.wsCfg s Gen.Mux.wsText = step Gen.Mux.wsCfg s .readErr ∧
+    Failed (ctlStep Gen.Mux.wsCfg s Gen.Mux.wsClose) ∧ Failed (ctlStep Gen.Mux.wsCfg s Gen.Mux.wsText) := by
+  have h1 : Gen.Mux.wsClose = .fail := by decide
+  have h2 : Gen.Mux.wsText = .fail := by decide
+  rw [h1, h2]
+  refine ⟨rfl, rfl, ?_, ?_⟩ <;> simp [ctlStep, step, hr, Failed]
+
+theorem ws_ping_pong_inert (s : State) :
+    ctlStep Gen.Mux.wsCfg s Gen.Mux.wsPing = s ∧ ctlStep Gen.Mux.wsCfg s Gen.Mux.wsPong = s := by
+  have h1 : Gen.Mux.wsPing = .ignore := by decide
+  have h2 : Gen.Mux.wsPong = .ignore := by decide
+  rw [h1, h2]; exact ⟨rfl, rfl⟩
 
 /-- Number of own steps a call still needs before it returns. -/
 def callRank (k : Call) : Nat :=
